@@ -90,7 +90,7 @@ pub fn check(case: &Case, reg: &qrun::Registry) -> Result<Facts, (String, String
     }
     for (workers, qi, schedule) in &case.cfgs {
         let q = QUANTA[*qi as usize % QUANTA.len()];
-        let cfg = SimCfg { workers: *workers as usize, quanta: vec![q], schedule: schedule.clone(), max_moves: 400_000 };
+        let cfg = SimCfg { workers: *workers as usize, quanta: vec![q], schedule: schedule.clone(), max_moves: 400_000, env_slow: 0 };
         let mut spawning_mail = false;
         let run = sim::run_program(&bc, cfg, reg, None, |s, m| {
             if let sim::Move::Worker { i, .. } = m {
@@ -241,7 +241,7 @@ pub fn replay(payload: &serde_json::Value) -> Result<(), String> {
         let workers = cfg["workers"].as_u64().unwrap_or(1) as usize;
         let q = cfg["quantum"].as_u64().unwrap_or(1000) as usize;
         let schedule = unhex(cfg["schedule"].as_str().unwrap_or(""));
-        let run = sim::run_program(&bc, SimCfg { workers, quanta: vec![q], schedule, max_moves: 400_000 }, &reg, None, |_, _| Ok(()));
+        let run = sim::run_program(&bc, SimCfg { workers, quanta: vec![q], schedule, max_moves: 400_000, env_slow: 0 }, &reg, None, |_, _| Ok(()));
         let (res, procs) = summarize(&run);
         println!("  workers={workers} quantum={q}: end={:?} result={res}", run.end);
         if std::env::var("QV_TRACE").is_ok() {
